@@ -325,7 +325,7 @@ func parseStmts(list []ast.Stmt, inGo bool, f *Func, cur *[]Op, threads *[][]Op)
 				case *ast.IfStmt:
 					if n.Init == nil && n.Else == nil {
 						if be, ok := n.Cond.(*ast.BinaryExpr); ok && be.Op == token.NEQ && str(be.Y) == "nil" {
-							if id, ok := be.X.(*ast.Ident); ok && len(lhs) > 0 && lhs[len(lhs)-1] == id.Name {
+							if id, ok := be.X.(*ast.Ident); ok && contains(lhs, id.Name) { // the error stands where the provider returns it (usually last)
 								form, ee, ok := errRetForm(n.Body.List)
 								if ok && ee == id.Name {
 									op.Err = id.Name
@@ -533,4 +533,13 @@ func main() {
 	enc := json.NewEncoder(os.Stdout)
 	enc.SetIndent("", " ")
 	_ = enc.Encode(out)
+}
+
+func contains(l []string, x string) bool {
+	for _, y := range l {
+		if y == x {
+			return true
+		}
+	}
+	return false
 }
